@@ -6,7 +6,9 @@ base = json.load(open('/root/.vp/BASELINE.json'))
 env = dict(os.environ)
 env.pop('DEVICE_KIT_VERIF', None)
 out = tempfile.mktemp(suffix='.xml')
-subprocess.run('cd /repo && /venv/bin/python -m pytest -ra -q -p no:cacheprovider --timeout=900 --continue-on-collection-errors --junitxml=%s' % out,
+repo = os.environ.get('VERIF_REPO', '/repo')
+env['PYTHONPATH'] = repo
+subprocess.run('cd ' + repo + ' && /venv/bin/python -m pytest -ra -q -p no:cacheprovider --timeout=900 --continue-on-collection-errors --junitxml=%s' % out,
                shell=True, env=env, stdout=subprocess.DEVNULL, stderr=subprocess.DEVNULL)
 passed = set()
 for tc in ET.parse(out).getroot().iter('testcase'):
